@@ -584,8 +584,7 @@ func (u *Upstream) sendChunkAndWaitAck(ctx context.Context, msgChunk *message.Up
 		return
 	}
 	if result == nil {
-		// ack timeout: the chunk has not been acknowledged, so it stays stored and is retransmitted when the stream is resumed
-		u.logger.Warnf(u.ctx, "ack timeout of upstream chunk[seq:%v]", msgChunk.StreamChunk.SequenceNumber)
+		// no acknowledgement: the chunk stays stored and is retransmitted when the stream is resumed
 		return
 	}
 
@@ -618,10 +617,21 @@ func (u *Upstream) withAckTimeoutCh(ctx context.Context, inCh <-chan *message.Up
 				// the run was cancelled (outage, close): that is not an ack timeout, the chunk stays stored
 				return
 			}
+			// ack timeout: the chunk stays stored (it is retransmitted when the stream is resumed); an
+			// acknowledgement that still arrives is taken, so that the chunk does not stay behind for good
+			u.logger.Warnf(u.ctx, "ack timeout (%v) of an upstream chunk", u.Config.AckTimeout)
 			select {
 			case <-ctx.Done():
 			case <-u.ctx.Done():
-			case resCh <- nil:
+			case val, ok := <-inCh:
+				if !ok {
+					return
+				}
+				select {
+				case <-ctx.Done():
+				case <-u.ctx.Done():
+				case resCh <- val:
+				}
 			}
 		case <-u.ctx.Done():
 		case val, ok := <-inCh:
